@@ -4,7 +4,7 @@
    Specification side (what a conforming encoder may write): Proofs/Woff2Spec.v. *)
 From AV Require Import Base.Prelude Base.Lemmas Gen.Woff2Lut Model.Woff2
   Proofs.Woff2Spec Proofs.Woff2Ints Proofs.Woff2Triplet Proofs.Woff2Glyf Proofs.Woff2Hmtx Proofs.Woff2Dir
-  Proofs.Woff2Provider Proofs.Woff2TtSpec Proofs.Woff2TtProofs.
+  Proofs.Woff2Provider Proofs.Woff2TtSpec Proofs.Woff2TtProofs Proofs.Woff2Total.
 Open Scope Z_scope.
 
 (* ================================================================== (a) variable-length integers *)
@@ -124,10 +124,12 @@ Proof. vm_compute. reflexivity. Qed.
 (* Every encoding of a glyph list that section 5.1 allows decodes to that glyph list: contours
    (endPtsOfContours), points and on-curve flags, instructions, bounding boxes (explicit, or
    omitted and recomputed), composite components and their instructions.  `encodes_glyf_table`
-   quantifies over every encoder choice; `simple_ok m` requires int16 coordinates and, for a
-   build with overflow checks (m = Debug), int16 deltas - the deltas a TrueType glyph can hold. *)
+   quantifies over every encoder choice; `simple_ok` requires int16 coordinates, fewer than 65536
+   points and strictly increasing end points - nothing about the deltas: two consecutive points
+   may be up to 65535 units apart (the triplet carries a 16-bit magnitude and a sign) and the
+   decoder lands on the right coordinate in debug and release builds alike (m is arbitrary). *)
 Theorem C11_glyf_transform_roundtrip : forall m gs bytes,
-  encodes_glyf_table m gs bytes -> read_woff2_glyf m bytes = Ok gs.
+  encodes_glyf_table gs bytes -> read_woff2_glyf m bytes = Ok gs.
 Proof. exact glyf_transform_roundtrip. Qed.
 Print Assumptions C11_glyf_transform_roundtrip.
 
@@ -152,12 +154,12 @@ Definition ex_contribs : list contrib :=
        k_bit := true |} ].
 Definition ex_table : list Z := tglyf_bytes 0 0 [32; 0; 0; 0] ex_contribs.
 
-Example C11_ex_glyf_table_encodes : encodes_glyf_table Debug ex_glyphs ex_table.
+Example C11_ex_glyf_table_encodes : encodes_glyf_table ex_glyphs ex_table.
 Proof.
   exists ex_contribs, [32; 0; 0; 0], 0, 0.
   split; [|split; [vm_compute; reflexivity|split; [|split; [lia|split; [lia|split; [vm_compute; reflexivity|reflexivity]]]]]].
   - constructor; [apply EG_empty|]. constructor; [|constructor; [|constructor]].
-    + apply (EG_simple Debug ex_simple [[2]] [27; 128] ([147] ++ [25]) [1] false).
+    + apply (EG_simple ex_simple [[2]] [27; 128] ([147] ++ [25]) [1] false).
       * unfold simple_ok, ex_simple. cbn [sg_end_pts sg_points sg_instr sg_bbox].
         repeat split; try (vm_compute; congruence); try (vm_compute; reflexivity);
           try (unfold i16_ok; cbn; lia).
@@ -175,7 +177,7 @@ Proof.
         apply EP_nil.
       * change (len (sg_instr ex_simple)) with 1. exact (E255_one 1 ltac:(lia)).
       * intros _. vm_compute. reflexivity.
-    + apply (EG_composite Debug _ [ex_comp] [9; 8] [253; 0; 2]).
+    + apply (EG_composite _ [ex_comp] [9; 8] [253; 0; 2]).
       * cbn [components_ok]. unfold component_ok, ex_comp, u16_ok, i16_ok, arg_ok.
         cbn [c_flags c_gid c_arg1 c_arg2 c_scale].
         repeat split; try (vm_compute; reflexivity); try (vm_compute; congruence); try lia; try constructor.
@@ -187,6 +189,17 @@ Proof.
   - unfold bitmap_ok. split; [vm_compute; reflexivity|split; [reflexivity|]].
     intros i Hi. change (len (map k_bit ex_contribs)) with 3 in Hi.
     assert (i = 0 \/ i = 1 \/ i = 2) as [->|[->| ->]] by lia; vm_compute; reflexivity.
+Qed.
+
+(* non-vacuity for wide deltas: from x = -20000 to x = 20000 (delta 40000, row 127) is an encoding
+   the relation admits, hence covered by the round trip in debug and release builds *)
+Example C11_ex_wide_delta_encodes :
+  encodes_points (-20000) 0 [ {| p_on := true; p_x := 20000; p_y := 0 |} ]
+    [127 + (if true then 0 else 128)] ([156; 64; 0; 0] ++ []).
+Proof.
+  apply (EP_cons (-20000) 0 {| p_on := true; p_x := 20000; p_y := 0 |} [] 127 [156; 64; 0; 0]).
+  - split; [lia|]. exists 40000, 0. vm_compute. repeat split; reflexivity.
+  - apply EP_nil.
 Qed.
 
 (* ================================================================== (d) transformed hmtx *)
@@ -317,7 +330,7 @@ Print Assumptions C11_collection_member_tables.
 Theorem C11_transformed_font_tables_partial :
   forall m ts flavor index gs h flags gt lt ht hdt mt hht head long G offs L,
   Forall tabspec_ok ts -> NoDup (map t_tag ts) ->
-  In gt ts -> t_tag gt = tag_glyf -> t_transformed gt = true -> encodes_glyf_table m gs (t_data gt) ->
+  In gt ts -> t_tag gt = tag_glyf -> t_transformed gt = true -> encodes_glyf_table gs (t_data gt) ->
   In lt ts -> t_tag lt = tag_loca -> t_transformed lt = true ->
   In ht ts -> t_tag ht = tag_hmtx -> t_transformed ht = true ->
   encodes_hmtx_flags flags gs h (t_data ht) -> Z.land flags 2 = 0 -> hmtx_ok gs h ->
@@ -346,7 +359,9 @@ Proof. exact rebuilt_glyf_loca_read_back. Qed.
 Print Assumptions C11_rebuilt_glyf_loca_read_back.
 
 (* END TO END for a TrueType font stored with the glyf, loca and hmtx transforms (gs, h = the
-   glyphs and metrics the encoder started from, int16 coordinates and deltas): in debug and
+   glyphs and metrics the encoder started from, int16 coordinates; `glyph_deltas_ok`: int16 deltas
+   between consecutive points, as in every TrueType glyf table - the glyf WRITER refuses anything
+   else with a WriteError, the WOFF2 decoder does not care): in debug and
    release arithmetic Woff2TableProvider::new succeeds and returns
      hmtx  = the plain serialisation of h (the original table),
      glyf, loca = tables through which the TrueType reader finds exactly gs,
@@ -358,7 +373,8 @@ Print Assumptions C11_rebuilt_glyf_loca_read_back.
 Theorem C11_transformed_font_roundtrip :
   forall m ts flavor index gs h flags gt lt ht hdt mt hht head long,
   Forall tabspec_ok ts -> NoDup (map t_tag ts) ->
-  In gt ts -> t_tag gt = tag_glyf -> t_transformed gt = true -> encodes_glyf_table Debug gs (t_data gt) ->
+  In gt ts -> t_tag gt = tag_glyf -> t_transformed gt = true -> encodes_glyf_table gs (t_data gt) ->
+  Forall glyph_deltas_ok gs ->
   In lt ts -> t_tag lt = tag_loca -> t_transformed lt = true ->
   In ht ts -> t_tag ht = tag_hmtx -> t_transformed ht = true ->
   encodes_hmtx_flags flags gs h (t_data ht) -> Z.land flags 2 = 0 -> hmtx_ok gs h ->
@@ -380,29 +396,94 @@ Example C11_ex_collection_bad_index :
   table_provider Debug {| f_flavor := 0; f_dir := []; f_coll := Some [[]]; f_block := [] |} 1 = Err BadIndex.
 Proof. vm_compute. reflexivity. Qed.
 
-(* ================================================================== known findings: witnesses *)
-(* Inputs inside the classes the round-trip theorem excludes; each panics in a build with
-   overflow checks (and, for the third, in every build).  See known/C11.json. *)
-(* a delta of 40000 between two int16 coordinates: i16 addition overflows in debug builds; a
-   release build wraps to the right coordinate (covered by C11_glyf_transform_roundtrip Release) *)
-Example C11_known_wide_delta :
-  read_woff2_glyf Debug ([0; 0; 0; 0; 0; 1; 0; 0; 0; 0; 0; 2; 0; 0; 0; 1; 0; 0; 0; 2; 0; 0; 0; 9; 0; 0; 0; 0; 0; 0; 0; 4; 0; 0; 0; 0; 0; 1; 2; 124; 127; 78; 32; 0; 0; 156; 64; 0; 0; 0; 0; 0; 0; 0]) = Panic /\
-  exists g, read_woff2_glyf Release ([0; 0; 0; 0; 0; 1; 0; 0; 0; 0; 0; 2; 0; 0; 0; 1; 0; 0; 0; 2; 0; 0; 0; 9; 0; 0; 0; 0; 0; 0; 0; 4; 0; 0; 0; 0; 0; 1; 2; 124; 127; 78; 32; 0; 0; 156; 64; 0; 0; 0; 0; 0; 0; 0]) = Ok [GSimple g] /\
+(* ================================================================== (g) malformed input *)
+(* The four operations repaired in src/woff2.rs (commits 8e2deb3, 309cc90, 5955e8e, 84a8f8b), each
+   stated for ALL inputs, in every build: what used to be "debug build panics, release build
+   wraps" is now a total function that returns the value or the ParseError. *)
+
+(* D1 (8e2deb3) point accumulation, i16::wrapping_add: the delta is known modulo 2^16 and so is the
+   sum, which is the next coordinate for ANY two int16 coordinates (the round trip above no longer
+   asks for int16 deltas) *)
+Theorem C11_point_accumulation_exact : forall prev next,
+  i16_ok prev -> i16_ok next -> to_signed 16 (prev + to_signed 16 (next - prev)) = next.
+Proof. exact i16_accumulate. Qed.
+Print Assumptions C11_point_accumulation_exact.
+
+(* D2 (309cc90) and D4 (84a8f8b) compute_end_pts_of_contours, checked_add / checked_sub: for any
+   list of contour sizes, each in any of its 255UInt16 forms, the result is endPtsOfContours (the
+   running sums minus one), the point count and the rest of the stream when the first contour
+   has a point and the sizes add up to at most 65535; ParseError::BadValue otherwise *)
+Theorem C11_end_pts_exact : forall counts encs rest,
+  counts <> [] -> Forall2 encodes_255 encs counts ->
+  compute_end_pts (concat encs ++ rest) (len counts) =
+    if (1 <=? hd 0 counts) && (sum counts <=? 65535)
+    then Ok (running 0 counts, sum counts, rest) else Err BadValue.
+Proof. exact compute_end_pts_exact. Qed.
+Print Assumptions C11_end_pts_exact.
+
+Theorem C11_end_pts_rejects_overflow : forall counts encs rest,
+  Forall2 encodes_255 encs counts -> 65535 < sum counts ->
+  compute_end_pts (concat encs ++ rest) (len counts) = Err BadValue.
+Proof. exact end_pts_rejects_overflow. Qed.
+Print Assumptions C11_end_pts_rejects_overflow.
+
+Theorem C11_end_pts_rejects_empty_first_contour : forall counts encs rest,
+  Forall2 encodes_255 encs (0 :: counts) ->
+  compute_end_pts (concat encs ++ rest) (len (0 :: counts)) = Err BadValue.
+Proof. exact end_pts_rejects_empty_first_contour. Qed.
+Print Assumptions C11_end_pts_rejects_empty_first_contour.
+
+(* D3 (5955e8e) TransformedGlyphTable::read, checked_sub: on any bytes the reader returns a table
+   or BadEof; a bboxStreamSize (u32 at offset 28) smaller than the bitmap that numGlyphs (u16 at
+   offset 4) calls for is refused with BadEof *)
+Theorem C11_tglyf_reader_total : forall s, only_eof (read_tglyf s).
+Proof. exact read_tglyf_only_eof. Qed.
+Print Assumptions C11_tglyf_reader_total.
+
+Theorem C11_tglyf_bbox_stream_checked : forall s num_glyphs bbox_stream_size r1 r2,
+  bytes_ok s = true ->
+  rd_u16 (drop 4 s) = Ok (num_glyphs, r1) -> rd_u32 (drop 28 s) = Ok (bbox_stream_size, r2) ->
+  bbox_stream_size < 4 * ((num_glyphs + 31) / 32) ->
+  read_tglyf s = Err Eof.
+Proof. exact tglyf_bbox_stream_checked. Qed.
+Print Assumptions C11_tglyf_bbox_stream_checked.
+
+(* D4 (84a8f8b), the assertion of BoundingBox::from_points: a simple glyph that decode_simple_glyph
+   returns (from any bytes) has between 1 and 65535 points with int16 coordinates, one end point
+   per contour and every end point the index of one of its points ... *)
+Theorem C11_decoded_simple_glyph_wf : forall m st nc eps ins pts st',
+  st_ok st -> 0 < nc -> decode_simple_glyph m st nc = Ok (eps, ins, pts, st') ->
+  pts <> [] /\ len pts <= 65535 /\ len eps = nc /\
+  Forall (fun e => 0 <= e < len pts) eps /\ Forall point_ok pts.
+Proof. exact decoded_simple_glyph_wf. Qed.
+Print Assumptions C11_decoded_simple_glyph_wf.
+
+(* ... and the transformed glyf decoder as a whole is total: on ANY byte string, in debug and
+   release arithmetic, Woff2GlyfTable::read_dep returns a glyph list or a ParseError.  (The model
+   says Panic where the Rust would panic: overflow checks of the translated triplet arithmetic,
+   table indexing, the from_points assertion, the fuel of the component loop.  None is reached.) *)
+Theorem C11_glyf_decoder_total : forall m s, bytes_ok s = true -> no_panic (read_woff2_glyf m s).
+Proof. exact read_woff2_glyf_total. Qed.
+Print Assumptions C11_glyf_decoder_total.
+
+(* the inputs recorded with the four defects (known/C11.json, corpus/C11.txt), debug and release *)
+(* a delta of 40000 between two int16 coordinates *)
+Example C11_fixed_wide_delta : forall m,
+  exists g, read_woff2_glyf m ([0; 0; 0; 0; 0; 1; 0; 0; 0; 0; 0; 2; 0; 0; 0; 1; 0; 0; 0; 2; 0; 0; 0; 9; 0; 0; 0; 0; 0; 0; 0; 4; 0; 0; 0; 0; 0; 1; 2; 124; 127; 78; 32; 0; 0; 156; 64; 0; 0; 0; 0; 0; 0; 0]) = Ok [GSimple g] /\
             map p_x (sg_points g) = [-20000; 20000].
-Proof. split; [vm_compute; reflexivity|]. eexists. split; vm_compute; reflexivity. Qed.
+Proof. intros []; eexists; split; vm_compute; reflexivity. Qed.
 
-(* contour sizes adding up to more than 65535 points: `n_points += n` overflows u16 *)
-Example C11_known_npoints_overflow :
-  read_woff2_glyf Debug ([0; 0; 0; 0; 0; 1; 0; 0; 0; 0; 0; 2; 0; 0; 0; 6; 0; 0; 0; 0; 0; 0; 0; 0; 0; 0; 0; 0; 0; 0; 0; 4; 0; 0; 0; 0; 0; 2; 253; 156; 64; 253; 156; 64; 0; 0; 0; 0]) = Panic /\ read_woff2_glyf Release ([0; 0; 0; 0; 0; 1; 0; 0; 0; 0; 0; 2; 0; 0; 0; 6; 0; 0; 0; 0; 0; 0; 0; 0; 0; 0; 0; 0; 0; 0; 0; 4; 0; 0; 0; 0; 0; 2; 253; 156; 64; 253; 156; 64; 0; 0; 0; 0]) = Err Eof.
-Proof. vm_compute. split; reflexivity. Qed.
+(* two contours of 40000 points each *)
+Example C11_fixed_npoints_overflow : forall m,
+  read_woff2_glyf m ([0; 0; 0; 0; 0; 1; 0; 0; 0; 0; 0; 2; 0; 0; 0; 6; 0; 0; 0; 0; 0; 0; 0; 0; 0; 0; 0; 0; 0; 0; 0; 4; 0; 0; 0; 0; 0; 2; 253; 156; 64; 253; 156; 64; 0; 0; 0; 0]) = Err BadValue.
+Proof. intros []; vm_compute; reflexivity. Qed.
 
-(* a contour of zero points: `n_points - 1` underflows (debug); release builds reach
-   BoundingBox::from_points with no points, which asserts *)
-Example C11_known_zero_points :
-  read_woff2_glyf Debug ([0; 0; 0; 0; 0; 1; 0; 0; 0; 0; 0; 2; 0; 0; 0; 1; 0; 0; 0; 0; 0; 0; 0; 1; 0; 0; 0; 0; 0; 0; 0; 4; 0; 0; 0; 0; 0; 1; 0; 0; 0; 0; 0; 0]) = Panic /\ read_woff2_glyf Release ([0; 0; 0; 0; 0; 1; 0; 0; 0; 0; 0; 2; 0; 0; 0; 1; 0; 0; 0; 0; 0; 0; 0; 1; 0; 0; 0; 0; 0; 0; 0; 4; 0; 0; 0; 0; 0; 1; 0; 0; 0; 0; 0; 0]) = Panic.
-Proof. vm_compute. split; reflexivity. Qed.
+(* one contour of zero points *)
+Example C11_fixed_zero_points : forall m,
+  read_woff2_glyf m ([0; 0; 0; 0; 0; 1; 0; 0; 0; 0; 0; 2; 0; 0; 0; 1; 0; 0; 0; 0; 0; 0; 0; 1; 0; 0; 0; 0; 0; 0; 0; 4; 0; 0; 0; 0; 0; 1; 0; 0; 0; 0; 0; 0]) = Err BadValue.
+Proof. intros []; vm_compute; reflexivity. Qed.
 
-(* bboxStreamSize smaller than the bitmap: `bbox_stream_size - bbox_bitmap_length` underflows *)
-Example C11_known_bbox_underflow :
-  read_woff2_glyf Debug ([0; 0; 0; 0; 0; 1; 0; 0; 0; 0; 0; 2; 0; 0; 0; 0; 0; 0; 0; 0; 0; 0; 0; 0; 0; 0; 0; 0; 0; 0; 0; 0; 0; 0; 0; 0; 0; 0; 0; 0; 0; 0]) = Panic /\ read_woff2_glyf Release ([0; 0; 0; 0; 0; 1; 0; 0; 0; 0; 0; 2; 0; 0; 0; 0; 0; 0; 0; 0; 0; 0; 0; 0; 0; 0; 0; 0; 0; 0; 0; 0; 0; 0; 0; 0; 0; 0; 0; 0; 0; 0]) = Err Eof.
-Proof. vm_compute. split; reflexivity. Qed.
+(* bboxStreamSize 0 for one glyph (the bitmap alone has 4 bytes) *)
+Example C11_fixed_bbox_underflow : forall m,
+  read_woff2_glyf m ([0; 0; 0; 0; 0; 1; 0; 0; 0; 0; 0; 2; 0; 0; 0; 0; 0; 0; 0; 0; 0; 0; 0; 0; 0; 0; 0; 0; 0; 0; 0; 0; 0; 0; 0; 0; 0; 0; 0; 0; 0; 0]) = Err Eof.
+Proof. intros []; vm_compute; reflexivity. Qed.
